@@ -264,6 +264,8 @@ class SNum:
 
     # -- comparisons ------------------------------------------------------------------------
     def _cmp(self, other, op):
+        if isinstance(other, float) and math.isnan(other):  # a concrete nan: every ordering is False, != is True
+            return op(0.0, other)
         o = _lift(other)
         if o is None:
             return NotImplemented
